@@ -1,4 +1,4 @@
-import Dashu.Proofs.Ratio.FloatFinal
+import Dashu.Proofs.Ratio.FBigFinal
 import Dashu.Gen.Misc
 import Mathlib.Order.Compare
 /-
@@ -140,61 +140,26 @@ theorem pick_simplest_optimal (lo hi : Q) (hlo : Reduced lo) (hhi : Reduced hi) 
       SimplestOfSet lo hi inclLo inclHi r :=
   pickSimplest_spec lo hi hlo hhi hpos hlt inclLo inclHi
 
-/-- **the rounding interval is the exact preimage** (any IEEE binary format `F`): a rational
-    `num/den` rounds — to nearest, ties to even, builder-conv's specification `ieeeRoundRat` — to
-    the finite non-zero float with sign `s` and canonical magnitude `m·2^exp` iff it is non-zero,
-    has that sign, and its magnitude lies in the float's rounding set: half an ulp to each side
-    (a quarter below a power of two above the lowest binade), boundaries included iff `m` is even. -/
-theorem rounding_set_is_preimage (F : Conv.Ieee) (hF : F.Ok) (s : Bool) (m : Nat) (exp : Int)
-    (hc : Canon F m exp) (hfin : exp + F.MB ≤ F.emax) (num : Int) (den : Nat) (hden : 0 < den) :
-    (Conv.ieeeRoundRat F .halfEven num den).1 = (if s then F.signBit else 0) + magBits F m exp ↔
-      (num ≠ 0 ∧ (num < 0 ↔ s = true) ∧ InSet F m exp ((num.natAbs : Rat) / den)) :=
-  round_iff F hF s m exp hc hfin num den hden
-
-/-- that set is the `roundingInterval` the model (and, since 3d8de53, the code) hands to
-    `simplest_in`: `(4·man − below, 4·man + 2)·2^(exp−2)` with the parity rule -/
-theorem rounding_set_is_interval (F : Conv.Ieee) (m : Nat) (exp : Int) (x : Rat) :
-    InSet F m exp x ↔
-      ((roundingInterval F.MB F.qmin m exp).1.val ≤ x ∧
-       x ≤ (roundingInterval F.MB F.qmin m exp).2.val ∧
-       (x = (roundingInterval F.MB F.qmin m exp).1.val → m % 2 = 0) ∧
-       (x = (roundingInterval F.MB F.qmin m exp).2.val → m % 2 = 0)) :=
-  inSet_iff_interval F m exp x
-
-/-- NaN / infinities give `None`, the zeros give 0 -/
-theorem simplest_from_float_special (eb mb bits : Nat) :
+/-- `simplest_from_f32` / `simplest_from_f64` over the interval `roundingInterval` (half an ulp to
+    each side, a quarter below a power of two, end points iff the mantissa is even): NaN/inf ⇒
+    `None`, ±0 ⇒ 0, otherwise the sign of the float times the simplest element of that interval.
+    That the interval is the exact preimage of the float under IEEE round-to-nearest-even, and hence
+    the full statement "simplest fraction that converts back to exactly the float", is
+    `Props/C18Link.lean` (composition with builder-conv's IEEE specification). -/
+theorem simplest_from_float_interval (eb mb bits : Nat) :
     (floatDecode eb mb bits = none →
       simplestFromFloat simplerSpec eb mb bits = .ok (some none)) ∧
-    (∀ exp, floatDecode eb mb bits = some (0, exp) →
-      simplestFromFloat simplerSpec eb mb bits = .ok (some (some Q.zero))) :=
-  ⟨(simplestFromFloat_spec eb mb bits).1,
-   fun exp h => ((simplestFromFloat_spec eb mb bits).2 0 exp h).1 rfl⟩
-
-/-- **`simplest_from_f32`, full statement**: for every finite non-zero `f32` (bit pattern) the
-    result is a reduced fraction that converts back to exactly that float under
-    round-to-nearest-even, and every fraction that converts back to it has a denominator that is
-    not smaller and, for an equal denominator, a numerator magnitude that is not smaller:
-    the simplest fraction among those that convert back to exactly the given float. -/
-theorem simplest_from_f32_exact (bits : Nat) (hbits : bits < 2 ^ 32) (man exp : Int)
-    (hdec : floatDecode 8 23 bits = some (man, exp)) (hman : man ≠ 0) :
-    ∃ r, simplestFromFloat simplerSpec 8 23 bits = .ok (some (some r)) ∧ Reduced r ∧
-      (Conv.ieeeRoundRat Conv.Ieee.binary32 .halfEven r.num r.den).1 = bits ∧
-      ∀ (p : Int) (s : Nat), 0 < s →
-        (Conv.ieeeRoundRat Conv.Ieee.binary32 .halfEven p s).1 = bits → AsSimple r ⟨p, s⟩ :=
-  simplestFromFloat_exact Conv.Ieee.binary32 Conv.Ieee.binary32_ok bits hbits man exp hdec hman
-
-/-- **`simplest_from_f64`, full statement** -/
-theorem simplest_from_f64_exact (bits : Nat) (hbits : bits < 2 ^ 64) (man exp : Int)
-    (hdec : floatDecode 11 52 bits = some (man, exp)) (hman : man ≠ 0) :
-    ∃ r, simplestFromFloat simplerSpec 11 52 bits = .ok (some (some r)) ∧ Reduced r ∧
-      (Conv.ieeeRoundRat Conv.Ieee.binary64 .halfEven r.num r.den).1 = bits ∧
-      ∀ (p : Int) (s : Nat), 0 < s →
-        (Conv.ieeeRoundRat Conv.Ieee.binary64 .halfEven p s).1 = bits → AsSimple r ⟨p, s⟩ :=
-  simplestFromFloat_exact Conv.Ieee.binary64 Conv.Ieee.binary64_ok bits hbits man exp hdec hman
-
--- a finite non-zero f32 meets the hypotheses (0.1f32), and 0.1 itself rounds back to it
-example : floatDecode 8 23 0x3dcccccd = some (13421773, -27) ∧
-    (Conv.ieeeRoundRat Conv.Ieee.binary32 .halfEven 1 10).1 = 0x3dcccccd := by decide
+    (∀ man exp, floatDecode eb mb bits = some (man, exp) →
+      (man = 0 → simplestFromFloat simplerSpec eb mb bits = .ok (some (some Q.zero))) ∧
+      (man ≠ 0 → ∃ lo hi s,
+        reduce (roundingInterval mb (1 - (2 ^ (eb - 1) - 1) - mb) man.natAbs exp).1 = .ok lo ∧
+        reduce (roundingInterval mb (1 - (2 ^ (eb - 1) - 1) - mb) man.natAbs exp).2 = .ok hi ∧
+        lo.val = (roundingInterval mb (1 - (2 ^ (eb - 1) - 1) - mb) man.natAbs exp).1.val ∧
+        hi.val = (roundingInterval mb (1 - (2 ^ (eb - 1) - 1) - mb) man.natAbs exp).2.val ∧
+        simplestFromFloat simplerSpec eb mb bits =
+          .ok (some (some (mulSign s (decide (man < 0))))) ∧
+        SimplestOfSet lo hi (decide (man.natAbs % 2 = 0)) (decide (man.natAbs % 2 = 0)) s)) :=
+  simplestFromFloat_spec eb mb bits
 
 -- 0x3dcccccd = 0.1f32 ↦ 1/10;  NaN ↦ None;  2^100 ↦ 2^100 − 2^75 (tie to the even mantissa)
 example : simplestFromFloat simplerSpec 8 23 0x3dcccccd = .ok (some (some ⟨1, 10⟩)) := by decide
@@ -202,7 +167,77 @@ example : simplestFromFloat simplerSpec 8 23 0x7fc00000 = .ok (some none) := by 
 example : simplestFromFloat simplerSpec 8 23 0x71800000 =
     .ok (some (some ⟨2 ^ 100 - 2 ^ 75, 1⟩)) := by decide
 
+-- ------------------------------------------------------------------ simplest_from_float (FBig)
+
+/-- **each rounding mode of dashu-float is a window** (builder-float's definition `Float.roundInt`
+    of the modes): a number of magnitude `y ≥ 0` and sign `neg` rounds to `±n` iff
+    `n − dlo ≤ y ≤ n + dhi` for the window of (mode, sign) — toward zero `[n, n+1)`, away
+    `(n−1, n]`, half-away `[n−½, n+½)`, half-even `[n−½, n+½]` with the ties iff `n` is even -/
+theorem mode_is_window (m : FMode) (neg : Bool) (y : Rat) (hy : 0 ≤ y) (n : Nat) :
+    Float.roundInt m (if neg then -y else y) = (if neg then -(n : Int) else (n : Int)) ↔
+      InW (windowOf m neg) n y :=
+  roundInt_window m neg y hy n
+
+/-- **the rounding set of an FBig value** (every base `b ≥ 2`, precision `p ≥ 1`, mode, `p`-digit
+    significand `S`, exponent, sign): `x ≠ 0` rounds to `± S·b^e` at `p` digits (`RoundsTo`: binade
+    `t` of `|x|`, quantum `b^(t−p)`, `Float.roundInt`) iff it has the float's sign and `|x|` lies in
+    `[S·b^e − dlo·below, S·b^e + dhi·b^e]`, `below = b^e` — or `b^(e−1)` when `S = b^(p−1)` — with the
+    window's inclusion flags.  This is the REQUIRED behaviour of `ErrorBounds`; the complement of
+    its agreement with the code is the recorded finding. -/
+theorem fbig_rounding_set_exact (m : FMode) (b p S : Nat) (hb : 2 ≤ b) (hp : 1 ≤ p)
+    (hS1 : b ^ (p - 1) ≤ S) (hS2 : S < b ^ p) (e : Int) (neg : Bool) (x : Rat) (hx : x ≠ 0) :
+    RoundsTo b m p x ((if neg then -(S : Rat) else (S : Rat)) * (b : Rat) ^ e) ↔
+      ((x < 0 ↔ neg = true) ∧ FSet (windowOf m neg) b p S e |x|) :=
+  fbig_rounding_set m b p S hb hp hS1 hS2 e neg x hx
+
+/-- the integer table the model hands to `simplest_in` (`roundingSet Quirks.none`, units of
+    `b^(e−1)/2`) is that set -/
+theorem fbig_model_set_is_rounding_set (mode : RMode) (b p : Nat) (hb : 2 ≤ b) (neg : Bool)
+    (S : Nat) (odd : Bool) (e : Int) (y : Rat) :
+    let r := roundingSet Quirks.none mode b p neg S odd
+    let sc : Rat := (b : Rat) ^ (e - 1) / 2
+    ((r.1 : Rat) * sc ≤ y ∧ y ≤ (r.2.1 : Rat) * sc ∧ (y = (r.1 : Rat) * sc → r.2.2.1 = true) ∧
+      (y = (r.2.1 : Rat) * sc → r.2.2.2 = true)) ↔ FSet (windowOf mode.toF neg) b p S e y :=
+  modelSet_iff_FSet mode b p hb neg S odd e y
+
+/-- **`simplest_from_float`, required behaviour, full statement** (every base `b ≥ 2`, mode,
+    precision `p ≥ 1`): for a non-zero float `signif·b^exp` of at most `p` digits the result is a
+    reduced fraction that rounds back to exactly that float, and every fraction that rounds to it
+    is at most as simple.  (The code deviates through `ErrorBounds`: recorded finding; the driver
+    reproduces the code from named deviations of this model.) -/
+theorem simplest_from_fbig_exact (simplerCode : Q → Q → Bool) (mode : RMode) (b : Nat) (hb : 2 ≤ b)
+    (signif exp : Int) (p : Nat) (hs : signif ≠ 0) (hp : 1 ≤ p)
+    (hdig : digitsB b (signif.natAbs + 1) signif.natAbs ≤ p) :
+    ∃ r, simplestFromFBig Quirks.none simplerSpec simplerCode mode b signif exp p = .ok (some r) ∧
+      Reduced r ∧ RoundsTo b mode.toF p r.val ((signif : Rat) * (b : Rat) ^ exp) ∧
+      ∀ (p' : Int) (s' : Nat), 0 < s' →
+        RoundsTo b mode.toF p ((p' : Rat) / s') ((signif : Rat) * (b : Rat) ^ exp) →
+        AsSimple r ⟨p', s'⟩ :=
+  simplestFromFBig_exact simplerCode mode b hb signif exp p hs hp hdig
+
+-- non-vacuity: DBig 0.5 at precision 1, mode Zero: hypotheses hold and the result is 1/2;
+-- 2e1 under HalfAway: 15
+example : digitsB 10 (5 + 1) 5 ≤ 1 ∧
+    simplestFromFBig Quirks.none simplerSpec simplerSpec .zero 10 5 (-1) 1 = .ok (some ⟨1, 2⟩) ∧
+    simplestFromFBig Quirks.none simplerSpec simplerSpec .halfAway 10 2 1 1 = .ok (some ⟨15, 1⟩) := by
+  decide
+
 example : nextUpDown true ⟨853, 113⟩ 10 = .ok (some ⟨68, 9⟩) := by decide
 example : nearest ⟨5, 2⟩ 1 = .ok (some (.inexact ⟨2, 1⟩ true)) := by decide
+
+-- ------------------------------------------------------------------ non-vacuity: concrete values meeting the hypotheses
+
+example : fareyNeighbors ⟨2, 7⟩ 3 = .ok (some (⟨0, 1⟩, ⟨1, 3⟩)) := by decide
+example : SInv 1234 5678 1235 5679 ∧ sb 100 1234 5678 1235 5679 = some (5, 23) :=
+  ⟨⟨by decide, by decide, by decide, by decide, by decide⟩, by decide⟩
+example : (10 : Nat) ^ (1 - 1) ≤ 5 ∧ 5 < 10 ^ 1 := by decide
+example : Reduced ⟨1, 3⟩ ∧ Reduced ⟨1, 2⟩ ∧ (0 : Int) < (⟨1, 3⟩ : Q).num ∧
+    (⟨1, 3⟩ : Q).val < (⟨1, 2⟩ : Q).val := by
+  refine ⟨by decide, by decide, by decide, ?_⟩; norm_num [Q.val_def]
+example : InW wHalfEven 2 (5 / 2) ∧ ¬ InW wHalfEven 3 (5 / 2) := by
+  constructor
+  · refine ⟨by norm_num [wHalfEven], by norm_num [wHalfEven], fun _ => by decide, fun _ => by decide⟩
+  · intro h; have := h.2.2.1 (by norm_num [wHalfEven]); simp [wHalfEven] at this
+
 
 end Dashu.Props.C18
